@@ -243,7 +243,31 @@ def run_ov(cases, stats, bracketed=False):
         if ov:
             ex.set_cells(ov)
         results.append({k: D.eval_cell(ex, 'S', FCOL[k], '1') for k in FORMS})
-    return _finish(cases, results, stats, 'ov-bracketed' if bracketed else 'ov')
+    vio = _finish(cases, results, stats, 'ov-bracketed' if bracketed else 'ov')
+    if not bracketed:
+        # the same pair held by the workbook: the answers may not depend on where the operands come from
+        idx = [i for i, c in enumerate(cases) if storable(D.dec(c['a'])) and storable(D.dec(c['b']))]
+        items = []
+        for i in idx:
+            a, b = D.dec(cases[i]['a']), D.dec(cases[i]['b'])
+            cells = {}
+            if a is not None:
+                cells['A@0'] = a
+            if b is not None:
+                cells['B@0'] = b
+            items.append({'f': {FCOL[k] + '@0': f for k, f in FORMS.items()}, 'cells': cells})
+        raw = D.eval_items(items, stats=stats)
+        for i, r in zip(idx, raw):
+            a, b = D.dec(cases[i]['a']), D.dec(cases[i]['b'])
+            for k in FORMS:
+                o_cell, o_ov = r[FCOL[k] + '@0'], results[i][k]
+                stats['x:source_comparisons'] += 1
+                if (o_cell[0], repr(o_cell[1]) if o_cell[0] == 'VALUE' else None) != (o_ov[0], repr(o_ov[1]) if o_ov[0] == 'VALUE' else None):
+                    vio.append({'i': i, 'desc': {'src': 'ov-vs-cell', 'kinds': [kind(a), kind(b)], 'op': k, 'law': 'source_independent',
+                                                 'outcome': 'LAW'}, 'expected': ['as workbook constants', D.enc(o_cell[1]) if o_cell[0] == 'VALUE' else list(o_cell)],
+                                'observed': ['as overrides', D.enc(o_ov[1]) if o_ov[0] == 'VALUE' else list(o_ov)]})
+                    break
+    return vio
 
 
 def run_cell(cases, stats):
